@@ -701,6 +701,12 @@ func reloadGenCase(rng *Rng, maxOps int) (*reloadCase, error) {
 					emit(CoreOp{Kind: "sched"})
 					emit(CoreOp{Kind: "sched"})
 					emit(CoreOp{Kind: "reload", Conf: sc.twin})
+					if rng.Chance(60) {
+						// the application in the now draining queue asks for more: it must still be served
+						emit(CoreOp{Kind: "alloc", App: op.App, Key: g.newKey(op.App), Res: CoreRes{"memory": 1}, AgeSec: 3600})
+						emit(CoreOp{Kind: "sched"})
+						emit(CoreOp{Kind: "sched"})
+					}
 					emit(plain(sc.leaves[0]))
 					emit(plain(sc.leaves[1]))
 					emit(CoreOp{Kind: "clean"})
@@ -741,6 +747,13 @@ func reloadGenCase(rng *Rng, maxOps int) (*reloadCase, error) {
 				continue
 			}
 			st := emit(CoreOp{Kind: "reload", Conf: ci})
+			if st.Err && rng.Chance(50) {
+				// the same rejected configuration again: a rejection must not have left it behind as the active one
+				emit(CoreOp{Kind: "reload", Conf: ci})
+				if rng.Chance(50) {
+					emit(CoreOp{Kind: "sched"})
+				}
+			}
 			// aim an application at a queue that has just been put into draining
 			if !st.Err && rng.Chance(50) {
 				var dr []string
